@@ -465,3 +465,38 @@ func TestC08_Enum(t *testing.T) {
 func TestC08_Random(t *testing.T) {
 	RunProp(t, "c08.random", genC08, retryFlaky("c08.random", execC08))
 }
+
+// ---------------------------------------------------------------------------
+// C05 at the daemon level: "unless its context is cancelled" as the assembled
+// daemon wires it. The correlator stops (its input ends or is unparsable, so the
+// worker group's context is cancelled) while accepted logins keep arriving; the
+// hand-off that is blocked on the dead correlator must be abandoned, which shows
+// as the daemon exiting. A control run without logins in flight separates this
+// from a daemon that does not stop at all (C08's business, excluded here).
+
+func genC05Daemon(rt *rapid.T) c08Case {
+	return c08Case{Cause: pick(rt, "cause", []string{"malformed_audit_then_login", "audit_eof_then_login"}),
+		Load: pick(rt, "load", []string{"idle", "idle", "saturated"}), DelayMs: rapid.IntRange(0, 200).Draw(rt, "delay"),
+		Prefix: rapid.IntRange(0, 3).Draw(rt, "prefix")}
+}
+
+func execC05Daemon(c c08Case) Outcome {
+	o := execC08(c)
+	if o.Err == nil {
+		return o
+	}
+	ctl := c
+	if c.Cause == "audit_eof_then_login" {
+		ctl.Cause = "audit_eof"
+	} else {
+		ctl.Cause = "malformed_audit"
+	}
+	if oc := execC08(ctl); oc.Err != nil {
+		return Outcome{Skip: "daemon_does_not_stop_even_without_a_login_in_flight"}
+	}
+	return fail("accepted logins arriving while the correlator stops (hand-off blocked, worker context cancelled): %v", o.Err)
+}
+
+func TestC05_Daemon(t *testing.T) {
+	RunProp(t, "c05.daemon", genC05Daemon, retryFlaky("c05.daemon", execC05Daemon))
+}
